@@ -52,10 +52,17 @@ type uploadHarness struct {
 	Chunks    []int     `json:"chunks"`
 	Env       envScript `json:"env"`
 	Canceller bool      `json:"canceller"`
+	// Close2: the caller closes the writer a second time (the usual `defer w.Close()` next to an explicit
+	// Close) and writes once more afterwards; both calls must return
+	Close2 bool `json:"second_close,omitempty"`
 }
 
 func (h uploadHarness) String() string {
-	return fmt.Sprintf("chunks=%v env.reads=%v env.terminal=%s canceller=%v", h.Chunks, h.Env.Reads, h.Env.Terminal, h.Canceller)
+	s := fmt.Sprintf("chunks=%v env.reads=%v env.terminal=%s canceller=%v", h.Chunks, h.Env.Reads, h.Env.Terminal, h.Canceller)
+	if h.Close2 {
+		s += " second-close"
+	}
+	return s
 }
 
 type eventLog struct {
@@ -209,9 +216,14 @@ type uploadObs struct {
 	Writes    []string
 	CloseErr  error
 	Closed    bool
-	Env       *fakeEnv
-	Log       *eventLog
-	Panic     string
+	// second Close / Write after Close (harnesses with Close2)
+	Close2Err       error
+	Closed2         bool
+	LateWrite       bool
+	LateWriteFailed bool
+	Env             *fakeEnv
+	Log             *eventLog
+	Panic           string
 }
 
 const uploadData = "ABCDEFGH"
@@ -254,6 +266,15 @@ func runUpload(t *testing.T, h uploadHarness, prefix []int) (s *sched.Sched, obs
 				obs.CloseErr = wc.Close()
 				obs.Closed = true
 				obs.Log.add("close-returned")
+				if h.Close2 {
+					s.Point("caller", "close2")
+					obs.Close2Err = wc.Close()
+					obs.Closed2 = true
+					s.Point("caller", "write-after-close")
+					_, werr := wc.Write([]byte("Z"))
+					obs.LateWriteFailed = werr != nil
+					obs.LateWrite = true
+				}
 			})
 			if h.Canceller {
 				s.Go("cancel", func() {
@@ -296,6 +317,20 @@ func judgeUpload(h uploadHarness, s *sched.Sched, o *uploadObs) string {
 	}
 	if !o.Closed {
 		return "close-did-not-return"
+	}
+	if h.Close2 {
+		if !o.Closed2 {
+			return "second-close-did-not-return"
+		}
+		if !o.LateWrite {
+			return "write-after-close-did-not-return"
+		}
+		if !o.LateWriteFailed {
+			return "write-after-close-reported-success"
+		}
+		if o.CloseErr != nil && o.Close2Err == nil && false {
+			return "second-close-hides-the-failure" // not demanded: io.Closer leaves the result of a second Close open
+		}
 	}
 	// (2) Close returns only after the server has answered
 	ti, ci := o.Log.index("env-terminal:"), o.Log.index("close-returned")
@@ -375,6 +410,9 @@ func uploadHarnesses(full bool) []uploadHarness {
 						continue // without a canceller a stalled server blocks for ever by construction
 					}
 					out = append(out, uploadHarness{Chunks: ch, Env: envScript{Reads: rs, Terminal: term}, Canceller: can})
+					if !can && (term == "201" || term == "403" || term == "connerr") {
+						out = append(out, uploadHarness{Chunks: ch, Env: envScript{Reads: rs, Terminal: term}, Close2: true})
+					}
 				}
 			}
 		}
